@@ -144,7 +144,39 @@ fn unstable_in_process(ws: &Workspace, load: Load, n: usize, section: &str) -> b
 }
 
 fn gen_ws(rng: &mut Rng, quick: bool) -> Workspace {
+    // a third of the workspaces are require cycles whose members claim the same field (the
+    // dependency graph does not fix their analysis order)
+    if rng.chance(1, 3) {
+        return gw::gen_cycle_workspace(rng);
+    }
     gw::gen_workspace(rng, &GenOpts { min_files: 3, max_files: if quick { 7 } else { 8 }, max_chunks: 6, order_bias: true })
+}
+
+/// Structural discriminator of a (shrunk) witness: how its files depend on each other.
+fn shape(ws: &Workspace) -> &'static str {
+    let texts: Vec<String> = ws.files.iter().map(|f| f.text()).collect();
+    let req = |i: usize, j: usize| texts[i].contains(&format!("require(\"{}\")", ws.files[j].module));
+    let n = ws.files.len();
+    if (0..n).any(|i| req(i, i)) {
+        return "self-require";
+    }
+    // reachability closure
+    let mut reach = vec![vec![false; n]; n];
+    for i in 0..n {
+        for j in 0..n {
+            reach[i][j] = req(i, j);
+        }
+    }
+    for k in 0..n {
+        for i in 0..n {
+            for j in 0..n {
+                if reach[i][k] && reach[k][j] {
+                    reach[i][j] = true;
+                }
+            }
+        }
+    }
+    if (0..n).any(|i| reach[i][i]) { "require-cycle" } else { "acyclic" }
 }
 
 #[allow(clippy::too_many_arguments)]
@@ -185,6 +217,7 @@ fn report_violation(ctx: &mut Ctx, ws: &Workspace, entry: &str, load: Load, m: &
         clip(&small.describe(), 2500)
     );
     let rep = json!({"ws": small.ws, "entry": entry});
+    let sig = if sig.ends_with("sorted-entry-stable") { sig } else { format!("{sig}:shape={}", shape(&small.ws)) };
     if *first {
         ctx.violated(&sig, &detail, rep);
         *first = false;
@@ -223,7 +256,7 @@ pub fn run(ctx: &mut Ctx) {
             let diffs = first_diff(m).unwrap_or_default();
             println!("{}", observe::diff_text(&diffs, 8));
             let (section, disc) = classify_first(m, &ws);
-            let sig = if entry == "production" && sorted_stable { "C11:nondeterministic:entry=production:sorted-entry-stable".to_string() } else { format!("C11:nondeterministic:entry={entry}:section={section}:{disc}") };
+            let sig = if entry == "production" && sorted_stable { "C11:nondeterministic:entry=production:sorted-entry-stable".to_string() } else { format!("C11:nondeterministic:entry={entry}:section={section}:{disc}:shape={}", shape(&ws)) };
             ctx.violated(&sig, &observe::diff_text(&diffs, 6), rep);
         } else {
             ctx.held(ws.fingerprint(), true);
